@@ -129,6 +129,8 @@ def handle : Handler := fun input impl =>
       let mstarted := (sts.map (·.started)).sum
       if mreq != req || mresp != resp then ("counter-mismatch", v)
       else if mstarted != (getN? o "started").getD 0 then (s!"started-mismatch:model {mstarted} metric {getS o "started"}", v)
+      -- "the pool ended" must mean that every started instance has left Run
+      else if getS o "finished" != getS o "started" then (s!"not-all-finished:{getS o "finished"} of {getS o "started"}", v)
       else (impl, v)
 
 end Pandora.Drv.C03
